@@ -30,6 +30,19 @@ func drawC01(t *rapid.T) polCase {
 	arch := drawArch(t)
 	prof := []gen.Profile{gen.NamesOnly, gen.NamesOnly, gen.NamesOnly, gen.Small, gen.Degenerate, gen.Long}[rapid.IntRange(0, 5).Draw(t, "profile")]
 	p := gen.Policy(t, arch, gen.Opts{Profile: prof})
+	if rapid.IntRange(0, 19).Draw(t, "manyGroups") == 0 {
+		// "any number of groups": 30..130 groups of one or two names each, neighbouring groups with different actions
+		u := gen.Subset(gen.Universe(arch), rapid.Uint64().Draw(t, "manyGroupsNames"), 260)
+		ng := rapid.IntRange(30, 130).Draw(t, "nGroups")
+		acts := oracle.ActionList()
+		p.Groups = nil
+		for g := 0; g < ng && len(u) >= 2; g++ {
+			k := 1 + (g*7+ng)%2
+			grp := spec.Group{Action: acts[(g+rapid.IntRange(0, 1).Draw(t, "actionStep"))%len(acts)], Names: append([]string(nil), u[:k]...)}
+			u = u[k:]
+			p.Groups = append(p.Groups, grp)
+		}
+	}
 	c := polCase{Policy: p, Seed: rapid.Uint64().Draw(t, "seed"), Extra: drawExtraEvents(t, &p, 3)}
 	switch rapid.IntRange(0, 12).Draw(t, "prevArch") {
 	case 0, 1:
